@@ -875,6 +875,37 @@ def _table_writers(ix, modname, tbl):
     return out
 
 
+def rule_lazy_prefixed_units(ck, ix):
+    """get_name grows the unit table on lookup (the `_units` 'memo' of prefixed units).  For answers to be history
+    independent the lazily registered entry must be invisible to everything that distinguishes defined from derived
+    spellings: it is stored once, under prefix + unit_name only, and it stays out of the case-insensitive index that
+    _yield_unit_triplets uses as 'is a defined spelling' test."""
+    fi = ix.func(PR, "GenericPlainRegistry.get_name")
+    ck.analysed(fi)
+    defs = defs_of(fi)
+    ws = writes_in(fi.node)
+    cas = [(p, k, nd) for (p, k, nd) in ws if "_units_casei" in p]
+    ck.check(not cas, "G-OWN", "memo=Registry:_units(lazy-prefixed)|not-in-casei-index", fi.loc(cas[0][2]) if cas else fi.loc(),
+             "lazily registered prefixed units stay out of the case-insensitive index",
+             "get_name enters the lazily registered prefixed unit into _units_casei: after one lookup of 'kilosecond', 'millikilosecond' and case-insensitive spellings parse, on a fresh registry they do not")
+    st = [(p, k, nd) for (p, k, nd) in ws if p.startswith("self._units") and "casei" not in p]
+    ck.check(len(st) == 1, "G-OWN", "memo=Registry:_units(lazy-prefixed)|single-entry", fi.loc(st[1][2]) if len(st) > 1 else fi.loc(), "one lazily added entry per lookup",
+             f"get_name writes the unit table {len(st)} times: additional spellings registered on lookup change later parses")
+    other = [(p, k, nd) for (p, k, nd) in ws if p.startswith("self.") and not p.startswith("self._units")]
+    ck.check(not other, "G-OWN", "memo=Registry:_units(lazy-prefixed)|no-other-state", fi.loc(other[0][2]) if other else fi.loc(), "a lookup writes nothing but the lazily added unit",
+             f"get_name also writes {other[0][0] if other else ''}: a read-only lookup changes registry state")
+    for (p, k, nd) in st[:1]:
+        if isinstance(nd, ast.Assign) and isinstance(nd.targets[0], ast.Subscript):
+            key = norm(defs.inline(nd.targets[0].slice))
+            ck.check(key == "prefix + unit_name", "G-MEMO-KEY", "memo=Registry:_units(lazy-prefixed)|key", fi.loc(nd), "stored under the canonical long name", f"the lazily added unit is stored under `{key}`, not the canonical prefix + unit_name")
+    # symbol / casei twin lookups are read-only
+    for q in ("GenericPlainRegistry.get_symbol", "GenericPlainRegistry.get_dimensionality", "GenericPlainRegistry.get_root_units", "GenericPlainRegistry.get_compatible_units", "GenericPlainRegistry._get_compatible_units"):
+        f = ix.func(PR, q)
+        ck.analysed(f)
+        w = [(p, k, nd) for (p, k, nd) in writes_in(f.node) if p.startswith("self.") and not p.startswith("self._cache")]
+        ck.check(not w, "G-OWN", f"read-only-query|{q.split('.')[1]}", f.loc(w[0][2]) if w else f.loc(), "writes only memo tables", f"{q} writes {w[0][0] if w else ''}: a read-only query changes registry state other than its memo")
+
+
 def rule_shared_mutable_state(ck, ix):
     """'One registry never changes another's answers': class-level and module-level mutable
     tables written after import are inventoried; every writer must be in the confirmed list."""
